@@ -94,4 +94,130 @@ theorem pki_roundtrip_of_codec (C : Cipher) (hC : CipherOK C) (kind : PkiKind) (
               rw [if_neg hsh]
 
 
+/-! ### the announced length (sizing pass) equals the written length, for every iteration count -/
+
+/-- what a successful Wrap has done -/
+theorem pkiWrap_inv (C : Cipher) (hC : CipherOK C) (kind : PkiKind) (payload pwd salt epki : Bytes) (iter : Nat)
+    (h : pkiWrap C kind payload pwd salt iter = (.ok, epki)) :
+    ¬ iter < Bee2V.Gen.C17Src.iterMin ∧ payloadCheck kind payload = .ok ∧
+    ∃ pki key edata, pkiEnc kind payload = .ok pki ∧ Bee2V.C01.pbkdf2 C pwd iter salt = (.ok, some key) ∧
+      Bee2V.C01.kwpWrap C pki none key = (.ok, some edata) ∧ edata.length = pki.length + 16 ∧
+      Bee2V.C08.bpkiEdataEnc edata salt iter = .ok epki := by
+  unfold pkiWrap at h
+  dsimp only at h
+  by_cases hi : iter < Bee2V.Gen.C17Src.iterMin
+  · rw [if_pos hi] at h; cases h
+  · rw [if_neg hi] at h
+    by_cases hpc : payloadCheck kind payload ≠ .ok
+    · rw [if_pos hpc] at h
+      exact absurd (Prod.mk.inj h).1 hpc
+    · rw [if_neg hpc] at h
+      have hpc' : payloadCheck kind payload = .ok := by simpa using hpc
+      refine ⟨hi, hpc', ?_⟩
+      cases he : pkiEnc kind payload with
+      | err => rw [he] at h; cases h
+      | oob => rw [he] at h; cases h
+      | ok pki =>
+        rw [he] at h; dsimp only at h
+        unfold epkiSeal at h
+        obtain ⟨e, o, hk⟩ : ∃ e o, Bee2V.C01.pbkdf2 C pwd iter salt = (e, o) := ⟨_, _, rfl⟩
+        rw [hk] at h
+        cases o with
+        | none =>
+          cases e <;> try (cases h)
+          unfold Bee2V.C01.pbkdf2 at hk
+          split at hk <;> cases hk
+        | some key =>
+          cases e <;> try (cases h)
+          dsimp only at h
+          obtain ⟨e2, o2, hw⟩ : ∃ e o, Bee2V.C01.kwpWrap C pki none key = (e, o) := ⟨_, _, rfl⟩
+          rw [hw] at h
+          cases o2 with
+          | none =>
+            cases e2 <;> try (cases h)
+            unfold Bee2V.C01.kwpWrap at hw
+            split at hw <;> cases hw
+          | some edata =>
+            cases e2 <;> try (cases h)
+            dsimp only at h
+            cases hee : Bee2V.C08.bpkiEdataEnc edata salt iter with
+            | err => rw [hee] at h; cases h
+            | oob => rw [hee] at h; cases h
+            | ok e3 =>
+              rw [hee] at h; cases h
+              have hkw : ¬ (pki.length < 16 ∨ Bee2V.C01.validKeyLen key.length = false) := by
+                intro hb
+                have := (Bee2V.C01.kwpWrap_badInput_iff C pki none key).mpr hb
+                rw [hw] at this; cases this
+              have hk16 : 16 ≤ pki.length := by
+                have := not_or.mp hkw; omega
+              have hkv : Bee2V.C01.validKeyLen key.length = true := by
+                cases hv : Bee2V.C01.validKeyLen key.length
+                · exact absurd (Or.inr hv) hkw
+                · rfl
+              obtain ⟨tok, ht1, htl, _⟩ := Bee2V.C01.kwpUnwrap_kwpWrap C hC pki none key hk16 hkv (by intro h hh; cases hh)
+              rw [hw] at ht1
+              have htok : tok = edata := by cases ht1; rfl
+              subst htok
+              exact ⟨pki, key, tok, rfl, hk, hw, htl, hee⟩
+
+open Bee2V.C08 (Tree tCount derLEnc tlvCode edataTree) in
+mutual
+/-- length of the DER code of a tree, from the lengths of its leaves -/
+def clen : Tree → Nat
+  | .prim b => b.length
+  | .seq _ tag kids => tCount tag + (derLEnc (clenL kids)).length + clenL kids
+def clenL : List Tree → Nat
+  | [] => 0
+  | t :: ts => clen t + clenL ts
+end
+
+open Bee2V.C08 (Tree) in
+mutual
+theorem code_len (t : Tree) : t.code.length = clen t := by
+  match t with
+  | .prim b => simp only [Tree.code, clen]
+  | .seq s tag kids =>
+    simp only [Tree.code, clen, List.length_append, Bee2V.C08.beBytes_length, codeL_len kids]
+theorem codeL_len (ts : List Tree) : (Tree.codeL ts).length = clenL ts := by
+  match ts with
+  | [] => simp only [Tree.codeL, clenL, List.length_nil]
+  | t :: ts => simp only [Tree.codeL, clenL, List.length_append, code_len t, codeL_len ts]
+end
+
+theorem tlvCode_len (tag : Nat) (v : Bytes) :
+    (Bee2V.C08.tlvCode tag v).length = Bee2V.C08.tCount tag + (Bee2V.C08.derLEnc v.length).length + v.length := by
+  simp only [Bee2V.C08.tlvCode, List.length_append, Bee2V.C08.beBytes_length]
+
+/-- the length of an EncryptedPrivateKeyInfo depends only on the SIZES of edata and salt, and on iter -/
+theorem edata_code_len_congr (e e' s s' : Bytes) (iter : Nat) (he : e.length = e'.length) (hs : s.length = s'.length) :
+    (Bee2V.C08.Tree.codeL [Bee2V.C08.edataTree e s iter]).length =
+      (Bee2V.C08.Tree.codeL [Bee2V.C08.edataTree e' s' iter]).length := by
+  rw [codeL_len, codeL_len]
+  simp only [Bee2V.C08.edataTree, clenL, clen, tlvCode_len, he, hs]
+
+/-- ANNOUNCED = WRITTEN, for every iteration count: the length the sizing pass of Wrap announces (a function of the
+payload size and of `iter` through the DER INTEGER iterCount) is the length of the container Wrap writes. -/
+theorem pkiWrap_len' (C : Cipher) (hC : CipherOK C) (kind : PkiKind) (payload pwd salt epki : Bytes) (iter : Nat)
+    (hsalt : salt.length = 8) (hiter : iter < 18446744073709551616)
+    (hpl : ∀ pki, pkiEnc kind payload = .ok pki → pki.length ≤ 200)
+    (h : pkiWrap C kind payload pwd salt iter = (.ok, epki)) :
+    pkiWrapLen kind payload iter = (.ok, epki.length) := by
+  obtain ⟨hi, hpc, pki, key, edata, he, _, _, hel, hee⟩ := pkiWrap_inv C hC kind payload pwd salt epki iter h
+  have hp := hpl pki he
+  have h1 := Bee2V.C08.edata_enc edata salt iter hsalt hiter (by omega)
+  rw [hee] at h1
+  have hz : (zeros (pki.length + 16)).length = pki.length + 16 := by simp [zeros, Bee2V.C01.zeros]
+  have hz8 : (zeros 8).length = 8 := by simp [zeros, Bee2V.C01.zeros]
+  have h2 := Bee2V.C08.edata_enc (zeros (pki.length + 16)) (zeros 8) iter hz8 hiter (by rw [hz]; omega)
+  unfold pkiWrapLen
+  rw [if_neg hi]
+  dsimp only
+  rw [if_neg (by simp [hpc]), he]
+  dsimp only
+  rw [h2]
+  dsimp only
+  have : epki = Bee2V.C08.Tree.codeL [Bee2V.C08.edataTree edata salt iter] := by cases h1; rfl
+  rw [this, edata_code_len_congr edata (zeros (pki.length + 16)) salt (zeros 8) iter (by rw [hz, hel]) (by rw [hz8, hsalt])]
+
 end Bee2V.C17
